@@ -214,6 +214,13 @@ func (g *j5Gen) entityPlan(pkg string, k *j5Known, style int, nWords int) *jEnti
 			p.TopicNames = append(p.TopicNames, names.Camel+"Brief")
 		}
 	}
+	if len(e.Summary) == 2 && rng.Intn(2) == 0 {
+		// the named summary first, the unnamed one after it
+		e.Summary[0], e.Summary[1] = e.Summary[1], e.Summary[0]
+		e.SummaryNames[0], e.SummaryNames[1] = e.SummaryNames[1], e.SummaryNames[0]
+		n := len(p.TopicNames)
+		p.TopicNames[n-2], p.TopicNames[n-1] = p.TopicNames[n-1], p.TopicNames[n-2]
+	}
 	e.EventsInGet = rng.Intn(3) == 0
 	if rng.Intn(3) == 0 {
 		e.DefaultStatusFilter = e.Statuses[:1]
@@ -267,6 +274,9 @@ func (g *j5Gen) apiService(name, pkg string, k *j5Known, listItem string, f *jFi
 		var parts []string
 		nParams := rng.Intn(3)
 		pnames := []string{"thingId", "subId"}
+		if rng.Intn(3) == 0 {
+			pnames = []string{"address2Id", "line3"} // digits inside parameter names
+		}
 		switch rng.Intn(3) {
 		case 0:
 			parts = append(parts, "things")
